@@ -11,4 +11,8 @@ for uid in sys.argv[1:]:
     run=vgen.run_verus(meta['file'])
     c=vgen.classify(u,meta,run)
     print(uid, round(run['wall'],1), c['smt_ms'])
-    for o,v in c['obligations'].items(): print('  ',o,v['status'],v['detail'][:1500])
+    seen=set()
+    for o,v in c['obligations'].items():
+        d=v['detail'][:1500]
+        print('  ',o,v['status'],'(same)' if d in seen and d else d)
+        seen.add(d)
